@@ -6,6 +6,7 @@ import AM.Model.Pipe
 import AM.Model.DirReader
 import AM.Model.Health
 import AM.Model.Conc
+import AM.Spec.AuditProc
 /-! `amdriver <mode> [property]`: runs the executable model on cases read from stdin, one per line,
 prints the model's canonical observation, the verdict of the property's executable `Spec` on it
 and — when the case carries the implementation's observation (`obs=`) — the verdict on that. -/
@@ -278,6 +279,27 @@ def concLine (f : List String) : String :=
     s!"{id} {String.intercalate "~" shown} spec=ok ispec={isp} dom=1 nt={nt} merges={ms.length}"
   | _ => "!badline"
 
+/-- C15: `<id> <failat:-|k> <op;op;…> [obs=…]` -/
+def apLine (f : List String) : String :=
+  match f with
+  | id :: fa :: ops :: rest =>
+    match Spec.AP.parseIns ops with
+    | none => s!"{id} !badops"
+    | some ins =>
+      let failAt := if fa == "-" then none else fa.toNat?
+      let cfg : AP.Cfg := {}
+      let (o, amb, forced) := Spec.AP.modelObs cfg failAt ins
+      let sp := Spec.AP.specC15 cfg failAt ins o
+      let isp := match kv rest "obs" with
+        | none => "-"
+        | some x => match Spec.AP.parseObs x with
+          | none => "FAIL:unparsable-observation"
+          | some io => verdict (Spec.AP.specC15 cfg failAt ins io)
+      let dom := if Spec.AP.noForce cfg ins && !forced then "1" else "0"
+      let nt := if o.acts.length ≥ 2 || o.err != "ctx" then "1" else "0"
+      s!"{id} {o.render} spec={verdict sp} ispec={isp} dom={dom} nt={nt} amb={if amb then "1" else "0"}"
+  | _ => "!badline"
+
 partial def loop (h : IO.FS.Stream) (out : IO.FS.Stream) (f : List String → String) : IO Unit := do
   let line ← h.getLine
   if line.isEmpty then return ()
@@ -295,5 +317,6 @@ def main (args : List String) : IO UInt32 := do
   | ["health"] => loop stdin stdout healthLine; return 0
   | ["dir"] => loop stdin stdout dirLine; return 0
   | ["pipe"] => loop stdin stdout pipeLine; return 0
+  | ["auditproc"] => loop stdin stdout apLine; return 0
   | ["tracker", prop] => loop stdin stdout (trackerLine prop); return 0
   | _ => IO.eprintln "usage: amdriver <mode> [property]"; return 2
